@@ -272,15 +272,31 @@ impl World {
                 _ => json!(["unsupported"]),
             };
         }
-        // resolve the path afresh for every call
-        let mut b: Bucket = match tx.get_bucket(path[0].clone()) {
-            Ok(b) => b,
-            Err(e) => return rerr(&e),
+        // resolve the path afresh for every call: with get_bucket, or ("n": 1) by picking the
+        // handles that the buckets() iterators yield -- they must behave exactly the same
+        let via_iter = o["n"].as_i64().unwrap_or(0) == 1;
+        let mut b: Bucket = if via_iter {
+            match tx.buckets().find(|(n, _)| n.name() == &path[0][..]) {
+                Some((_, b)) => b,
+                None => match tx.get_bucket(path[0].clone()) {
+                    Ok(b) => b,
+                    Err(e) => return rerr(&e),
+                },
+            }
+        } else {
+            match tx.get_bucket(path[0].clone()) {
+                Ok(b) => b,
+                Err(e) => return rerr(&e),
+            }
         };
         for name in &path[1..] {
-            b = match b.get_bucket(name.clone()) {
-                Ok(nb) => nb,
-                Err(e) => return rerr(&e),
+            let found = if via_iter { b.buckets().find(|(n, _)| n.name() == &name[..]).map(|(_, nb)| nb) } else { None };
+            b = match found {
+                Some(nb) => nb,
+                None => match b.get_bucket(name.clone()) {
+                    Ok(nb) => nb,
+                    Err(e) => return rerr(&e),
+                },
             };
         }
         let lk = o["lk"].as_str().unwrap_or("U");
